@@ -13,8 +13,8 @@
   raises" is a statement about reachability (C11_ann_total, C11_block_total); the `len(options)` step
   of `validate()` is total as well (C11_validate_len; it was not before fix 065a201).
   Line numbers at block level: C11_line_step (what is logged while a line is read names that line)
-  and C11_line_partial (every diagnostic names a line of the comment).  The caret clause at
-  block level and the diagnostics of `validate()` are covered by the model correspondence (every
+  and C11_line (every diagnostic, and every position `validate()` reports, names a line of the
+  comment).  The caret clause at block level and the message texts of `validate()` are covered by the model correspondence (every
   diagnostic with line, caret and quoted line is compared with the real parser) and by the
   statement-level oracles of harness/c11.py, not by a theorem.
 
@@ -25,6 +25,7 @@
 import GIVerif.Lemmas.AnnParseCaret
 import GIVerif.Lemmas.AnnParseBlockTotal
 import GIVerif.Lemmas.AnnParseBlockDiag
+import GIVerif.Lemmas.AnnParseBlockPos
 
 namespace GIVerif.AnnParse
 open GIVerif.Py
@@ -79,14 +80,21 @@ theorem C11_line_step (h : Hdr) (st st' : BSt) (ln : Nat) (line : Str) (hs : lin
     ∃ d, st'.diags = st.diags ++ d ∧ ∀ x ∈ d, x.line = ln :=
   lineStep_grows h st ln line st' hs
 
-/-- Line numbers, whole block (the state machine, i.e. everything but `validate()`, whose diagnostics
-    can lack a position altogether — recorded finding): when the opening token stands
-    alone on its line, every diagnostic names a line of the comment itself, between its first line `lineno`
-    and its last line. -/
-theorem C11_line_partial (comment : Str) (lineno : Nat) (b : Option BlockM) (d : List BDiag)
+/-- Line numbers, whole block: when the opening token stands alone on its line, every diagnostic of the state
+    machine names a line of the comment itself (between its first line `lineno` and its last line), and so does
+    every position `validate()` reports — a part that has annotations always has positioned annotations
+    (`annotations.position` is never `None` there: the first line of the part, the continuation line on which
+    its annotations begin, or the line of the deprecated tag that supplied them), on a line behind the opening
+    token.  (Which messages `validate()` logs is not modelled; all of them use that one position.) -/
+theorem C11_line (comment : Str) (lineno : Nat) (b : Option BlockM) (d : List BDiag)
     (h : parseBlock comment lineno = .ok (b, d)) (halone : OpeningAlone (commentLines comment)) :
-    ∀ x ∈ d, lineno ≤ x.line ∧ x.line < lineno + (commentLines comment).length :=
-  parseBlock_diag_lines comment lineno b d h halone
+    (∀ x ∈ d, lineno ≤ x.line ∧ x.line < lineno + (commentLines comment).length) ∧
+    (∀ B, b = some B → ∀ p ∈ validatePositions B,
+      ∃ l, p = some l ∧ lineno < l ∧ l < lineno + (commentLines comment).length) := by
+  refine ⟨parseBlock_diag_lines comment lineno b d h halone, ?_⟩
+  intro B hB
+  subst hB
+  exact parseBlock_validate_lines comment lineno B d h halone
 
 /-- Atomicity: when the tokenizer rejects a field (unbalanced / unexpected parentheses), the
     part's annotations are exactly as before — on a first line the part keeps no annotation,
@@ -293,6 +301,12 @@ example : (parseBlock (str "/**\n * foo: ((skip)\n * @p: (in\n * out)\n */") 10)
            ⟨.error, .unbalancedParens, 12, some 9, some (str " * @p: (in")⟩]) := by decide +kernel
 
 example : BInv BSt.init := by simp [BInv, BSt.init]
+
+/-- annotations that begin on a continuation line, and a deprecated tag: both positioned -/
+example : ((parseBlock (str "/**\n * foo:\n *   (foo)\n * @p: (in)\n *   (bar)\n */") 10).toOption.map
+      (fun r => r.1.map validatePositions)) = some (some [some 12, some 13]) ∧
+    ((parseBlock (str "/**\n * foo:\n *\n * Rename to: a b\n */") 1).toOption.map
+      (fun r => r.1.map validatePositions)) = some (some [some 4]) := by decide +kernel
 
 example : OpeningAlone (commentLines (str "/**\n * foo: ((skip)\n */")) := by
   have h1 : commentLines (str "/**\n * foo: ((skip)\n */") = [str "/**", str " * foo: ((skip)", str " */"] := by
